@@ -782,7 +782,7 @@ WALK_EDGE_HTML = [
     "<figure>junk<figcaption>cap <b>b</b></figcaption>tail</figure>", "<figure>no caption <i>i</i></figure>",
     "<div class='gc'><p>ignored</p></div>", "<div class='gcp'>x</div>", "<div class='pw'> a  b\n c </div>", "<div class='pwf'> a  b\r\n c </div>",
     "<div class='pw0'> a  b\n c </div>", "<div class='pw'>a\rb\r\nc\n\rd</div>", "<pre>a\rb\n\rc</pre>",
-    "<div class='pw'>a&#13;b&#13;&#10;c&#10;&#13;d</div>", "<pre>a&#13;b&#13;&#10;c</pre>", "<p>a&#13;b &#13;&#9; c</p>", "<div class='pwf'>a&#13;b&#13;&#10;c</div>", "<pre><div class='pw0'> a  b </div></pre>", "<p class='no'>not a paragraph</p>",
+    "<div class='pw'>a&#13;b&#13;&#10;c&#10;&#13;d</div>", "<pre>a&#13;b&#13;&#10;c</pre>", "<p>a&#13;b &#13;&#9; c</p>", "<p>a&#13;b &#13;&#12; c&#11;</p>&#12;", "<div class='pwf'>a&#13;b&#13;&#10;c</div>", "<pre><div class='pw0'> a  b </div></pre>", "<p class='no'>not a paragraph</p>",
     "<blockquote><p>in quote</p></blockquote><div class='pw'><p>in pw</p></div>", "<span class='ig'>gone<br></span><div class='ig'><br></div>",
     "<b>x<span style='font-weight:400'>y</span>z</b>", "<b><span style='font-weight:normal'>y</span>z</b>",
     "<em>m<span style='font-style:normal'></span></em>&amp;", "<mark>a<mark>b</mark>c</mark>", "<mark>a<span class='hl' data-c='red'>b<mark>c</mark></span></mark>",
@@ -959,7 +959,7 @@ def run(ctx):
         replay = {"schema": "rules", "html": html}
         ctx.case(["parse", "rules", html], nontrivial=bool(html.strip()), sample={"op": "from_html", "schema": "rules", "html": html[:200]})
         sid = ctx.driver.add_schema(rinfo)
-        dom = lxml.html.fragment_fromstring(html, create_parent="document-fragment")
+        dom = html_fragment(html)
         (st_r, doc_r), pcs = recorded(rinfo, lambda: rparser.parse(dom))
         ctx.count("parse:" + st_r)
         if st_r != "ok":
@@ -980,7 +980,7 @@ def run(ctx):
     for html in WALK_EDGE_HTML:
         for n, einfo, eparser in edge_infos:
             sid = ctx.driver.add_schema(einfo)
-            dom = lxml.html.fragment_fromstring(html, create_parent="document-fragment")
+            dom = html_fragment(html)
             (st_r, doc_r), pcs = recorded(einfo, lambda: eparser.parse(dom))
             ctx.case(["parse-edge", n, html], sample=None)
             if st_r != "ok":
@@ -998,7 +998,7 @@ def run(ctx):
     # rule sets the parser does not survive: the model must fail with the same class of exception
     for cname, cparser, html, expect in crash_parsers(rinfo.schema):
         sid = ctx.driver.add_schema(rinfo)
-        dom = lxml.html.fragment_fromstring(html, create_parent="document-fragment")
+        dom = html_fragment(html)
         (st_r, _), pcs = recorded(rinfo, lambda: cparser.parse(dom))
         ctx.count("crash_case:" + cname + ":" + st_r)
         if st_r != expect:
